@@ -364,12 +364,12 @@ def auto_bounds(ck, prog, config, clause):
 CLAIM = {
     'technique': 'typestate on the chunk-finishing paths, call-graph deny-list, guard facts + linear form of the '
                  'boundary test, stale-cache dataflow with transitive mod sets, minimal relational (order) domain on '
-                 'the chunk size bounds',
+                 'the chunk size bounds, dominance of the rolling-hash loop over every queueing call in automatic mode, zero-length contract closure over the write path, extended order facts (chunk_min_size <= chunk_auto_max)',
     'text': 'static analysis: decides C16-a,b,d,e (mechanism) - the rolling hash is reset exactly on chunk-finishing '
             'paths; nothing below the write API reads clocks, randomness, pids or the environment; automatic chunk '
             'ends respect the minimum, the maximum-size test is on the bytes of the chunk so far and no cached copy '
             'of the fill level is used stale; the automatic bounds are ordered. Segmentation independence as a whole '
-            'and locality across edits are not decided.',
+            'and locality across edits are not decided. C16-f/g: every byte queued in automatic mode passed the rolling hash; an empty piece is accepted on the write path.',
     'note': 'trusted: clang 14 front end; transitive mod sets over the resolved call graph; access-path non-aliasing',
 }
 
